@@ -325,6 +325,24 @@ pub fn c02(c: &mut Ctx) {
         } else {
             c02_mul(c, y, x);
         }
+        // products that equal a "first non-representable integer" exactly, and short-significand factors
+        if c.rng.chance(1, 8) {
+            let n = boundary_int(&mut c.rng);
+            if let Some((p1, q1)) = small_factor(&mut c.rng, n) {
+                if q1 < (1u128 << 53) {
+                    let sc = pow2(c.rng.range(-200, 200));
+                    c02_mul(c, p1 as f64 * sc, q1 as f64);
+                    c02_mul(c, -(q1 as f64), p1 as f64 * sc);
+                    c.count("boundary_integer_products");
+                }
+            }
+            let (e1, e2) = (c.rng.range(-300, 300), c.rng.range(-300, 300));
+            let (n1, n2) = (c.rng.range(20, 30) as u32, c.rng.range(20, 30) as u32);
+            let x1 = short_sig(&mut c.rng, n1, e1);
+            let x2 = short_sig(&mut c.rng, n2, e2);
+            c02_mul(c, x1, x2);
+            c02_add_sub(c, x1, short_sig(&mut c.rng.clone(), n2, e1 + (e2 % 30)));
+        }
         // division
         let p = f64_in(&mut c.rng, -480, 480);
         let q = match c.rng.below(6) {
@@ -484,10 +502,11 @@ fn bits_eq(a: W, b: W) -> bool {
 }
 
 pub fn c03_sum(c: &mut Ctx) {
-    let len = match c.rng.below(8) {
+    let len = match c.rng.below(16) {
         0 => 0,
         1 => 1,
         2 => 2,
+        3 => c.rng.range(200, 1300),
         _ => c.rng.range(3, 64),
     } as usize;
     let mode = c.rng.below(4);
@@ -581,6 +600,34 @@ pub fn c03(c: &mut Ctx) {
         cl_tf.offer(r, a, (f, 0.0));
         if i % 16 == 0 {
             c03_sum(c);
+        }
+        if i % 8 == 1 {
+            // single-word integer operands whose exact sum / difference is the first integer that is
+            // not an f64 (2^53 + 1, ...), and short-significand single-word operands a few binades apart
+            let n = boundary_int(&mut c.rng);
+            if n < (1u128 << 70) {
+                let x = (c.rng.next() >> c.rng.range(11, 40)) as u128;
+                let (x, y) = (x.min(n - 1), n - x.min(n - 1));
+                if x < (1u128 << 53) && y < (1u128 << 53) {
+                    let sc = pow2(c.rng.range(-300, 300));
+                    let (fx, fy) = (x as f64 * sc, y as f64 * sc);
+                    c03_tt(c, (fx, 0.0), (fy, 0.0));
+                    c03_tt(c, (fx, 0.0), (-fy, 0.0));
+                    c03_tf(c, (fx, 0.0), fy);
+                    c03_tf(c, (-fx, 0.0), fy);
+                    c03_tf(c, (fy, 0.0), -fx);
+                    c.count("boundary_integer_sums");
+                }
+            }
+            let e1 = c.rng.range(-500, 500);
+            let gap = c.rng.range(0, 40);
+            let (n1, n2) = (c.rng.range(20, 30) as u32, c.rng.range(20, 30) as u32);
+            let x1 = short_sig(&mut c.rng, n1, e1);
+            let x2 = short_sig(&mut c.rng, n2, e1 - gap);
+            c03_tt(c, (x1, 0.0), (x2, 0.0));
+            c03_tt(c, (x2, 0.0), (x1, 0.0));
+            c03_tf(c, (x1, 0.0), x2);
+            c03_tf(c, (x2, 0.0), x1);
         }
     }
     // deterministic cancellation sweep: b = -(a with the low word moved), every depth
@@ -770,6 +817,31 @@ pub fn c04(c: &mut Ctx) {
         cl_tf.offer(r, a, (f, 0.0));
         if i % 4 == 0 {
             c04_exact(c, a);
+        }
+        if i % 8 == 1 {
+            let nn = boundary_int(&mut c.rng);
+            if let Some((p1, q1)) = small_factor(&mut c.rng, nn) {
+                if q1 < (1u128 << 53) {
+                    let sc = pow2(c.rng.range(-200, 200));
+                    let (x, y) = (p1 as f64 * sc, q1 as f64);
+                    c04_tf(c, (x, 0.0), y);
+                    c04_tf(c, (y, 0.0), -x);
+                    c04_tt(c, (x, 0.0), (y, 0.0));
+                    c04_tt(c, (-y, 0.0), (x, 0.0));
+                    c.count("boundary_integer_products");
+                }
+            }
+            let (e1, e2) = (c.rng.range(-200, 200), c.rng.range(-200, 200));
+            let (n1, n2) = (c.rng.range(20, 30) as u32, c.rng.range(20, 30) as u32);
+            let x1 = short_sig(&mut c.rng, n1, e1);
+            let x2 = short_sig(&mut c.rng, n2, e2);
+            c04_tt(c, (x1, 0.0), (x2, 0.0));
+            c04_tf(c, (x1, 0.0), x2);
+            let l1 = lo_class(&mut c.rng, x1, 8);
+            if valid_ref(x1, l1) {
+                c04_tt(c, (x1, l1), (x2, 0.0));
+                c04_tf(c, (x1, l1), x2);
+            }
         }
     }
     let m = n / 3;
@@ -1130,6 +1202,9 @@ pub fn c19_pair(c: &mut Ctx, a: W, b: W) {
     }
     c.note("rem/TF,TF", &ins, nt);
     judge_rem(c, "rem/TF,TF", &ins, guard(|| w(ta % tb)), &da, &db, &ks);
+    judge_rem(c, "rem/&TF,&TF", &ins, guard(|| w(&ta % &tb)), &da, &db, &ks);
+    judge_rem(c, "rem/&TF,TF", &ins, guard(|| w(&ta % tb)), &da, &db, &ks);
+    judge_rem(c, "rem/TF,&TF", &ins, guard(|| w(ta % &tb)), &da, &db, &ks);
     c.note("rem_assign/TF,TF", &ins, nt);
     judge_rem(
         c,
@@ -1147,6 +1222,9 @@ pub fn c19_pair(c: &mut Ctx, a: W, b: W) {
     if b.1 == 0.0 {
         c.note("rem/TF,f64", &ins, nt);
         judge_rem(c, "rem/TF,f64", &ins, guard(|| w(ta % b.0)), &da, &db, &ks);
+        judge_rem(c, "rem/&TF,&f64", &ins, guard(|| w(&ta % &b.0)), &da, &db, &ks);
+        judge_rem(c, "rem/&TF,f64", &ins, guard(|| w(&ta % b.0)), &da, &db, &ks);
+        judge_rem(c, "rem/TF,&f64", &ins, guard(|| w(ta % &b.0)), &da, &db, &ks);
         c.note("rem_assign/TF,f64", &ins, nt);
         judge_rem(
             c,
@@ -1165,6 +1243,9 @@ pub fn c19_pair(c: &mut Ctx, a: W, b: W) {
     if a.1 == 0.0 {
         c.note("rem/f64,TF", &ins, nt);
         judge_rem(c, "rem/f64,TF", &ins, guard(|| w(a.0 % tb)), &da, &db, &ks);
+        judge_rem(c, "rem/&f64,&TF", &ins, guard(|| w(&a.0 % &tb)), &da, &db, &ks);
+        judge_rem(c, "rem/&f64,TF", &ins, guard(|| w(&a.0 % tb)), &da, &db, &ks);
+        judge_rem(c, "rem/f64,&TF", &ins, guard(|| w(a.0 % &tb)), &da, &db, &ks);
     }
     // Euclidean: e = floor(q) for b > 0, ceil(q) for b < 0
     let qneg = da.neg != db.neg;
